@@ -43,6 +43,13 @@ def ego_vs_map_tracking(ctx, d):
     _compare(ctx, d)
 
 
+@CHECK.given("ego_vs_map_crowded", lambda tier: MG.manager_cases(tier, tasks=("detection", "tracking"), allow_map=False, crowded=True, max_frames=2), quick=45, thorough=2000)
+def ego_vs_map_crowded(ctx, d):
+    """Side-by-side annotations (< 1 m apart, otherwise identical) at map coordinates of 5e4..1e5 m: anything that
+    compares positions with a tolerance relative to the coordinate magnitude behaves differently in the two frames."""
+    _compare(ctx, d)
+
+
 def _compare(ctx, d):
     import math
 
